@@ -1,4 +1,5 @@
 """C03 - per-frame TP/FP/FN/TN accounting conserves objects."""
+import math
 import os
 
 from perception_eval.common.evaluation_task import EvaluationTask
@@ -59,6 +60,13 @@ def units(tier, seed):
     for fr, ego in frames[:2]:
         for pol in S.POLICIES[:2]:
             u.append(dict(seam="frame", family="res_reversed", frame=fr, ego=list(ego), policy=pol, kmax=2, chunk=[0, 1], tier=tier))
+    # objects exactly at the ego origin (ego-relative x = y = 0.0, planar distance exactly 0) - in the ego frame and in map renderings
+    # whose ego pose has no rotation, so that the transformed coordinates are exact zeros too
+    for fr, ego in (("base_link", (0.0, 0.0, 0.0)), ("map", (10.0, -5.0, 0.0)), ("map", (0.0, 0.0, 0.0))):
+        u.append(dict(seam="frame", family="origin", frame=fr, ego=list(ego), policy="DEFAULT", kmax=2, chunk=[0, 1], tier=tier))
+    # traffic lights: ROI-less 2D objects that carry a 3-D position in the camera frame; the frame supplies camera -> base_link
+    for ci in range(len(CAM_MOUNTS)):
+        u.append(dict(seam="lights", cam=ci))
     # manager seam: both manager-level filters, both frames
     for fr, ego in frames[:2]:
         for pol in S.POLICIES:
@@ -79,7 +87,70 @@ MGR_REF = {"wide": dict(target_labels=S.LABELS, max_x=[100.0, 100.0], max_y=[100
            "narrow": dict(target_labels=S.LABELS, max_x=[13.0, 9.0], max_y=[6.5, 6.5], min_pts=[0, 0])}
 
 
+# camera mounts: (translation in base_link, rotation matrix camera axes -> base_link axes); optical axes x right, y down, z forward
+CAM_MOUNTS = [((12.0, 0.0, 2.0), [[0.0, 0.0, 1.0], [-1.0, 0.0, 0.0], [0.0, -1.0, 0.0]]),
+              ((-3.0, 1.5, 1.0), [[0.0, 0.0, -1.0], [1.0, 0.0, 0.0], [0.0, -1.0, 0.0]])]      # rear-facing
+LIGHT_Z = [4.0, 20.0, 33.0, 45.0, 57.0]
+LIGHT_X = [-10.0, 0.0, 8.0]
+RINGS = [(1.0, 50.0), (10.0, 40.0)]
+
+
+def _check_lights(case, acc):
+    """every subset of <= 2 lights out of a 5 x 3 lattice (estimates = the ground truths' positions, same uuids) x 2 rings."""
+    import numpy as np
+    from perception_eval.common.dataset import FrameGroundTruth
+    from perception_eval.common.label import Label, TrafficLightLabel
+    from perception_eval.common.object2d import DynamicObject2D
+    from perception_eval.common.schema import FrameID
+    from perception_eval.common.transform import HomogeneousMatrix
+    from perception_eval.evaluation.result.perception_frame_result import PerceptionFrameResult
+    t, Rm = CAM_MOUNTS[case["cam"]]
+    Rm = np.array(Rm)
+    ec = F.eval_config("classification2d", "cam_traffic_light", dict(
+        label_prefix="traffic_light", target_labels=["green", "red", "unknown"], max_x_position=None, max_y_position=None, min_point_numbers=None,
+        center_distance_thresholds=None, plane_distance_thresholds=None, iou_2d_thresholds=None, iou_3d_thresholds=None))
+    labs = ("green", "red", "unknown")
+
+    def light(uuid, p, lab="RED", score=1.0):
+        return DynamicObject2D(unix_time=100, frame_id=FrameID.CAM_TRAFFIC_LIGHT, semantic_score=score, semantic_label=Label(TrafficLightLabel[lab], lab.lower(), []),
+                               roi=None, uuid=uuid, position=tuple(p))
+
+    pts = [case["lights"][i] for i in range(len(case["lights"]))]
+    lo, hi = case["ring"]
+    gts = [light("l%d" % i, p) for i, p in enumerate(pts)]
+    ests = [light("l%d" % i, p, score=0.9) for i, p in enumerate(pts)]
+    dist = [math.hypot(*((Rm @ np.array(p, dtype=float) + np.array(t))[:2])) for p in pts]
+    if any(min(abs(d - lo), abs(d - hi)) < 1e-6 for d in dist):
+        acc.skip("boundary:ring")
+        return
+    cam2ego = HomogeneousMatrix(t, Rm.copy(), src=FrameID.CAM_TRAFFIC_LIGHT, dst=FrameID.BASE_LINK)
+    acc.exec()
+    res = get_object_results(ec.evaluation_task, list(ests), list(gts), ec.target_labels)
+    fr = PerceptionFrameResult(res, FrameGroundTruth(100, "0", list(gts), transforms=[cam2ego]), ec.metrics_config,
+                               F.crit_config(ec, dict(max_d=[hi] * 3, min_d=[lo] * 3), labs), F.pf_config(ec, None, labs), 100, ec.target_labels)
+    fr.evaluate_frame()
+    acc.compared()
+    p = fr.pass_fail_result
+    want = sorted("l%d" % i for i, d in enumerate(dist) if lo < d < hi)
+    counted_e = sorted(r.estimated_object.uuid for r in p.tp_object_results + p.fp_object_results)
+    counted_g = sorted([r.ground_truth_object.uuid for r in p.tp_object_results] + [o.uuid for o in p.fn_objects])
+    if counted_e != want or counted_g != want:
+        acc.violation("lights:ring", "traffic lights at ego-frame planar distances %s with the ring (%s, %s): estimates counted %s, ground truths accounted %s, inside the ring %s" % (
+            [round(d, 3) for d in dist], lo, hi, counted_e, counted_g, want), case)
+    acc.state(("lights", case["cam"], tuple(case["ring"]), tuple(lo < d < hi for d in dist)), nontrivial=0 < len(want) < len(pts) or len(pts) == 1)
+    acc.outcome(("lights", len(want), len(pts)))
+
+
 def run_unit(unit, acc):
+    if unit.get("seam") == "lights":
+        import itertools
+        lattice = [(x, -3.0, z) for z in LIGHT_Z for x in LIGHT_X]
+        for k in (1, 2):
+            for sel in itertools.combinations(range(len(lattice)), k):
+                for ring in RINGS:
+                    acc.case()
+                    _check_lights(dict(seam="lights", cam=unit["cam"], lights=[list(lattice[i]) for i in sel], ring=list(ring)), acc)
+        return
     if unit.get("family") == "unknown_gt":
         est, gt = _pools3(_SEED[0])
         for es in S.sublists(len(est), unit["kmax"]):
@@ -88,6 +159,9 @@ def run_unit(unit, acc):
                                 ests=[est[i] for i in es], gts=[gt[j] for j in gs], crits=["box3"], thrs=["per_label3"]), acc)
         return
     est, gt = S.pools(_SEED[0])
+    if unit.get("family") == "origin":
+        est = [dict(est[0], x=0.0, y=0.0), dict(est[2], x=0.0, y=0.0), est[0], dict(est[1], x=0.0, y=0.0, z=1.5)]
+        gt = [dict(gt[0], x=0.0, y=0.0), dict(gt[2], x=0.0, y=0.0, pts=0), gt[0], gt[2]]
     if unit.get("family") in ("reversed", "pf_reversed", "res_reversed"):
         est, gt = [est[i] for i in (0, 1, 2, 3, 4, 5, 7)], [gt[j] for j in (0, 1, 2, 3, 4, 7)]
     if unit["seam"] == "manager" and unit["tier"] == "quick":
@@ -107,6 +181,9 @@ def run_unit(unit, acc):
             if unit.get("family") in ("reversed", "pf_reversed", "res_reversed"):
                 case["family"] = unit["family"]
                 case["crits"], case["thrs"] = ["box_per_label", "ring"], ["per_label"]
+            if unit.get("family") == "origin":
+                case["family"] = "origin"
+                case["crits"], case["thrs"] = ["ring", "box_per_label"], ["per_label"]
             if unit["seam"] == "manager":
                 case["mgr_filter"] = unit["mgr_filter"]
                 case["crits"] = ["box_per_label", "ring"]
@@ -292,6 +369,8 @@ def _check_frame(case, crit, thr, fr, ests, gts, pre_e, pre_g, acc, label="", pr
 
 def check_case(case, acc):
     acc.case()
+    if case.get("seam") == "lights":
+        return _check_lights(case, acc)
     fr_id, ego = case["frame"], tuple(case["ego"])
     ests = [G.mk3d(s, fr_id, ego) for s in case["ests"]]
     gts = [G.mk3d(s, fr_id, ego) for s in case["gts"]]
